@@ -410,7 +410,6 @@ def gen_units():
         # C02 / C15: `<<<` (explicit or implicit): pop the inner chain and splice it, as a closure, into the recorded wrapper
         fn("wrap_last_step_stream", "r", proof_prologue="broadcast use lemma_step_toks1, lemma_not_hoisted;", attrs="#[verifier::rlimit(200)]\n",
            requires=["stack_wf(__arg0.step_streams@)", "__arg0.step_streams@.len() >= 2",
-                     "!(__arg0.step_streams@[__arg0.step_streams@.len() - 2].1->0.expr.expr is Initial)",
                      "action_expr_pos is Some ==> printable(action_expr_pos->0.expr.expr)"],
            ensures=[
                "stack_wf(r.step_streams@)",
@@ -424,7 +423,7 @@ def gen_units():
         # C02 / C15: one action of a step against the stack
         fn("process_step_action_expr", "r", proof_prologue="broadcast use lemma_step_toks1, lemma_not_hoisted;",
            requires=["action_expr_pos is Some", "stack_wf(step_acc.step_streams@)",
-                     "action_expr_pos->0.expr.action.move_type == MoveType::Unwrap ==> (step_acc.step_streams@.len() >= 2 && !(step_acc.step_streams@[step_acc.step_streams@.len() - 2].1->0.expr.expr is Initial))",
+                     "action_expr_pos->0.expr.action.move_type == MoveType::Unwrap ==> step_acc.step_streams@.len() >= 2",
                      "action_expr_pos->0.expr.action.move_type == MoveType::Wrap ==> frame_wrapper_ok(action_expr_pos->0)",
                      "action_expr_pos->0.expr.action.move_type == MoveType::None ==> printable(action_expr_pos->0.expr.expr)"],
            ensures=[
@@ -438,6 +437,43 @@ def gen_units():
         fn("is_block_expr", "r", ensures=["r == (expr is Block)"]),
         fn("is_lower_precedence_than_method_call", "r", ensures=["r == low_prec(*expr)"]),
     ]))
+    # C02 / C15: one branch of one step of `generate_step` (R15: the body of its third closure, lifted): the fold that
+    # feeds the actions to the stack, the loop that closes the wrappers still open at the end of the step, the spawn
+    # wrapping.  For every action list the parser can produce (step_acts_ok) no precondition of the stack functions is
+    # violated, no `expect` is reachable, and the closing loop terminates with exactly one frame.
+    ACTS = "chain_step_actions@"
+    u.append({"kind": "lifted", "file": F_JO, "self_ty": "JoinOutput", "func": "generate_step", "closure": 2,
+              "header": "impl<'a> JoinOutput<'a>",
+              "sig": "generate_step_branch<TVar: ToTokens>(&self, chain_step_actions: &Vec<&'a ExprGroup<ActionExpr>>, branch_index: usize, "
+                     "step_number: usize, result_vars: &[TVar], is_async: bool, is_spawn: bool) -> Option<(Option<TokenStream>, TokenStream)>",
+              "spec": fn("generate_step_branch", "r", label="JoinOutput::generate_step_branch",
+                         attrs="#[verifier::loop_isolation(false)]\n",
+                         requires=["step_acts_ok(%s)" % ACTS, "branch_index < result_vars@.len()", "all_tokenizable(result_vars@)"],
+                         ensures=["r is Some <==> %s.len() > 0" % ACTS],
+                         closures={
+                             "0": {"id": "G", "params": ["Option<StepAcc<'a>>", "(usize, &&'a ExprGroup<ActionExpr>)"], "ret": "(r: Option<StepAcc<'a>>)",
+                                   "requires": ["__Gp1.0 < %s.len()" % ACTS, "*__Gp1.1 == %s[__Gp1.0 as int]" % ACTS,
+                                                "acc is None <==> __Gp1.0 == 0",
+                                                "acc is Some ==> frame_inv(acc->0.step_streams@, %s, __Gp1.0 as int)" % ACTS],
+                                   "ensures": ["r is Some", "frame_inv(r->0.step_streams@, %s, __Gp1.0 as int + 1)" % ACTS]},
+                             "1": {"params": ["StepAcc<'a>"], "ret": "(r: StepAcc<'a>)",
+                                   "requires": ["frame_inv(step_acc.step_streams@, %s, expr_index as int)" % ACTS],
+                                   "ensures": ["frame_inv(r.step_streams@, %s, expr_index as int + 1)" % ACTS]},
+                             "2": {"params": [], "ret": "(r: Option<StepAcc<'a>>)",
+                                   "requires": ["expr_index == 0"],
+                                   "ensures": ["r is Some", "frame_inv(r->0.step_streams@, %s, 1)" % ACTS]},
+                             "3": {"id": "U", "params": ["StepAcc<'a>"], "ret": "(r: (Option<TokenStream>, TokenStream))",
+                                   "requires": ["stack_wf(__Up0.step_streams@)"]},
+                             "4": {"id": "M", "params": ["(Option<TokenStream>, TokenStream)"], "ret": "(r: (Option<TokenStream>, TokenStream))"},
+                         },
+                         loops={"0": {"invariant": ["stack_wf(step_streams@)"], "decreases": "step_streams@.len()"}},
+                         iter_loops={"0": {"acc_ty": "Option<StepAcc<'a>>", "invariant": [
+                             "__i <= __it.len()", "__it@ == %s" % ACTS,
+                             "__acc is None <==> __i == 0",
+                             "__acc is Some ==> frame_inv(__acc->0.step_streams@, %s, __i as int)" % ACTS,
+                             "forall|a: Option<StepAcc<'a>>, p: (usize, &&'a ExprGroup<ActionExpr>)| (p.0 < %s.len() && *p.1 == %s[p.0 as int] && (a is None <==> p.0 == 0) && (a is Some ==> frame_inv(a->0.step_streams@, %s, p.0 as int))) ==> __g.requires((a, p))" % (ACTS, ACTS, ACTS),
+                             "forall|a: Option<StepAcc<'a>>, p: (usize, &&'a ExprGroup<ActionExpr>), r: Option<StepAcc<'a>>| __g.ensures((a, p), r) ==> (r is Some && frame_inv(r->0.step_streams@, %s, p.0 as int + 1))" % ACTS,
+                         ]}})})
     return u
 
 
@@ -671,7 +707,7 @@ OBLIGATIONS = {
             ("core", "ProcessExpr::replace_inner_exprs"), ("core", "ErrExpr::replace_inner_exprs"),
             ("core", "InitialExpr::replace_inner_exprs"), ("core", "ActionExpr::replace_inner_exprs"),
             ("gen", "JoinOutput::expand_process_expr"), ("gen", "JoinOutput::generate_def_and_step_streams")],
-    "C02": [("parse", "ActionGroup::parse_stream"), ("parse", "parse_until_suffix"), ("parse", "lemma_wrapper_frame"), ("builder", "ActionExprChainBuilder::build_from_parse_stream"), ("gen", "JoinOutput::wrap_last_step_stream"), ("gen", "JoinOutput::process_step_action_expr"),
+    "C02": [("gen", "JoinOutput::generate_step_branch"), ("parse", "ActionGroup::parse_stream"), ("parse", "parse_until_suffix"), ("parse", "lemma_wrapper_frame"), ("builder", "ActionExprChainBuilder::build_from_parse_stream"), ("gen", "JoinOutput::wrap_last_step_stream"), ("gen", "JoinOutput::process_step_action_expr"),
             ("gen", "lemma_step_toks1"), ("core", "Combinator::can_be_wrapper"), ("core", "ActionGroup::to_wrapper_action_expr"),
             ("core", "ProcessExpr::replace_inner_exprs"), ("core", "ErrExpr::replace_inner_exprs"),
             ("core", "InitialExpr::replace_inner_exprs"), ("core", "ActionExpr::replace_inner_exprs"),
@@ -683,7 +719,7 @@ OBLIGATIONS = {
     "C13": [("guards", "new_guards"), ("gen", "JoinOutput::generate_handle"), ("gen", "JoinOutput::extract_results_tuple"), ("gen", "JoinOutput::generate_results_transposer")],
     "C05": [("gen", "JoinOutput::generate_results_transposer")],
     "C12": [("builder", "ActionExprChainBuilder::build_from_parse_stream"), ("gen", "JoinOutput::branch_result_name"), ("gen", "JoinOutput::branch_result_pat")],
-    "C15": [("parse", "parse_until_suffix"), ("builder", "ActionExprChainBuilder::build_from_parse_stream"), ("builder", "ActionExprChain::append_member"),
+    "C15": [("gen", "JoinOutput::generate_step_branch"), ("parse", "parse_until_suffix"), ("builder", "ActionExprChainBuilder::build_from_parse_stream"), ("builder", "ActionExprChain::append_member"),
             ("builder", "lemma_append_facts"), ("builder", "lemma_balanced_depth"),
             ("gen", "JoinOutput::wrap_last_step_stream"), ("gen", "JoinOutput::process_step_action_expr"),
             ("gen", "JoinOutput::generate_def_and_step_streams"), ("gen", "JoinOutput::expand_process_expr"),
